@@ -4,6 +4,7 @@ import (
 	"fmt"
 	"net/http"
 	"net/http/httptest"
+	"sort"
 	"strings"
 
 	webdav "github.com/emersion/go-webdav"
@@ -377,4 +378,141 @@ func famSrvObj(o *Out, r *RNG, thorough bool) {
 	}
 }
 
-func init() { families["srvfront"] = famSrvFront; families["srvobj"] = famSrvObj }
+// backend failures: every data call of the backend double fails with an HTTP error, a precondition error (409 with a
+// DAV:error element) or a plain error; the answer must be complete and carry the backend's own status (500 for a
+// plain error), and a precondition element must be served as a well-formed DAV:error document
+func failError(kind string, card bool) error {
+	switch kind {
+	case "plain":
+		return fmt.Errorf("backend exploded")
+	case "precond":
+		if card {
+			return carddav.NewPreconditionError(carddav.PreconditionNoUIDConflict)
+		}
+		return caldav.NewPreconditionError(caldav.PreconditionNoUIDConflict)
+	}
+	var code int
+	fmt.Sscanf(kind, "http%d", &code)
+	return webdav.NewHTTPError(code, fmt.Errorf("backend says no"))
+}
+
+func emitFail(o *Out, r *RNG, srv, method string, level int, depth, kind, report string) {
+	q := frontReq{srv: srv, method: method, level: level, exists: true, ctype: "none", body: "empty", depth: depth, ow: "absent", dst: "absent"}
+	if level == 3 && method == "MKCOL" {
+		q.exists = false
+	}
+	var body string
+	switch method {
+	case "PUT":
+		q.ctype, q.body = "obj", "objok"
+		body = frontBody(q, r)
+	case "PROPFIND":
+		q.ctype, q.body = "xml", "valid"
+		body = `<?xml version="1.0"?><D:propfind xmlns:D="DAV:"><D:allprop/></D:propfind>`
+	case "REPORT":
+		q.ctype, q.body = "xml", "valid"
+		nsX, data, qname, mname := nsCal, "calendar-data", "calendar-query", "calendar-multiget"
+		if srv == "card" {
+			nsX, data, qname, mname = nsCard, "address-data", "addressbook-query", "addressbook-multiget"
+		}
+		if report == "multiget" {
+			body = randStyle(r).doc(E(nsX, mname, E("DAV:", "prop", E("DAV:", "getetag"), E(nsX, data)), E("DAV:", "href").T(frontPath(frontReq{srv: srv, level: 4, exists: true}))))
+		} else if srv == "card" {
+			body = randStyle(r).doc(E(nsX, qname, E("DAV:", "prop", E("DAV:", "getetag")), E(nsX, "filter")))
+		} else {
+			body = randStyle(r).doc(E(nsX, qname, E("DAV:", "prop", E("DAV:", "getetag")), E(nsX, "filter", E(nsX, "comp-filter").A("name", "VCALENDAR"))))
+		}
+	}
+	res := guard(func() string {
+		req := httptest.NewRequest("GET", "http://example.com"+frontPath(q), strings.NewReader(body))
+		req.Method = method
+		frontHeaders(q, req.Header)
+		rec := httptest.NewRecorder()
+		fe := failError(kind, srv == "card")
+		if srv == "cal" {
+			(&caldav.Handler{Backend: &calBackend{principal: "/u/", homeSet: "/u/cal/", failWith: fe}}).ServeHTTP(rec, req)
+		} else {
+			(&carddav.Handler{Backend: &cardBackend{principal: "/u/", homeSet: "/u/ab/", failWith: fe}}).ServeHTTP(rec, req)
+		}
+		out := itoa(rec.Code)
+		if rec.Code == 207 {
+			// per-resource statuses of a multi-status
+			t, err := treeOfBytes(rec.Body.Bytes())
+			if err != nil {
+				return "207-broken-body"
+			}
+			var sts []string
+			for _, c := range t.children {
+				if c.elem {
+					pr := parseResponseNode(c)
+					if pr.status != 0 {
+						sts = append(sts, itoa(pr.status))
+					}
+				}
+			}
+			sort.Strings(sts)
+			if len(sts) > 0 {
+				out += " " + strings.Join(sts, ",")
+			}
+		} else if kind == "precond" && rec.Code == 409 {
+			// the body must be a DAV:error document carrying the condition element
+			t, err := treeOfBytes(rec.Body.Bytes())
+			if err != nil || t.space != "DAV:" || t.local != "error" {
+				return out + " no-error-document"
+			}
+			for _, c := range t.children {
+				if c.elem {
+					out += " " + c.local
+				}
+			}
+		}
+		return out
+	})
+	o.Emit("srv.fail", fmt.Sprintf("%s %s %d %s %s %s", srv, hx(method), level, depth, kind, report), res)
+}
+
+func famSrvFail(o *Out, r *RNG, thorough bool) {
+	for _, srv := range []string{"cal", "card"} {
+		for _, kind := range []string{"http403", "http404", "http409", "http423", "http507", "http503", "precond", "plain"} {
+			for _, m := range []string{"OPTIONS", "GET", "HEAD", "PUT", "DELETE", "MKCOL", "PROPPATCH", "COPY"} {
+				for lvl := 0; lvl <= 4; lvl++ {
+					emitFail(o, r, srv, m, lvl, "absent", kind, "-")
+				}
+			}
+			for lvl := 0; lvl <= 4; lvl++ {
+				for _, d := range []string{"0", "1", "infinity"} {
+					emitFail(o, r, srv, "PROPFIND", lvl, d, kind, "-")
+				}
+			}
+			for _, rep := range []string{"query", "multiget"} {
+				emitFail(o, r, srv, "REPORT", 3, "absent", kind, rep)
+			}
+		}
+		// discovery: the well-known URL redirects to the principal, for every method
+		for _, m := range []string{"GET", "PROPFIND", "OPTIONS", "PUT", "FOO"} {
+			for _, principal := range []string{"/u/", "/dav/principals/me/", "/"} {
+				res := guard(func() string {
+					wk := "/.well-known/caldav"
+					if srv == "card" {
+						wk = "/.well-known/carddav"
+					}
+					req := httptest.NewRequest(m, "http://example.com"+wk, nil)
+					rec := httptest.NewRecorder()
+					if srv == "cal" {
+						(&caldav.Handler{Backend: &calBackend{principal: principal, homeSet: principal + "cal/"}, Prefix: "/dav"}).ServeHTTP(rec, req)
+					} else {
+						(&carddav.Handler{Backend: &cardBackend{principal: principal, homeSet: principal + "ab/"}, Prefix: "/dav"}).ServeHTTP(rec, req)
+					}
+					return fmt.Sprintf("%d %s", rec.Code, hx(rec.Header().Get("Location")))
+				})
+				o.Emit("srv.wellknown", srv+" "+hx(m)+" "+hx(principal), res)
+			}
+		}
+	}
+}
+
+func init() {
+	families["srvfront"] = famSrvFront
+	families["srvobj"] = famSrvObj
+	families["srvfail"] = famSrvFail
+}
